@@ -8,8 +8,13 @@ s = open(p).read()
 lines = s.split("\n")
 out = []
 pkg = {"C11": "harness-service/c11", "C19": "c19 + harness-service/c19x"}
+inside = False
 for ln in lines:
-    m = re.match(r"^\| (C\d\d) \| (.*?) \| (.*?) \| (.*?) \|$", ln)
+    if ln.startswith("### 8.1"):
+        inside = True
+    elif ln.startswith("### 8.2"):
+        inside = False
+    m = inside and re.match(r"^\| (C\d\d) \| (.*?) \| (.*?) \| (.*?) \|$", ln)
     if m and "deciding oracle" not in ln:
         pid, _, oracle, _ = m.groups()
         ev = os.path.join(ROOT, "evidence", pid + ".json")
